@@ -983,14 +983,38 @@ class SymReal:
             return o < 0
         return self._cmp(o, "__ge__")
 
+    def _note_exact_equality(self, o):
+        """Exact equality of a *computed* binary64 value is where the exact-real model and the real arithmetic
+        part ways most easily (a midpoint that coincides with an end point in the reals, but not after rounding):
+        a counterexample in which such an equality holds is rounding-dependent, i.e. believed only when it replays.
+        Equalities between plain inputs / constants are not affected."""
+        if not engine.have_run():
+            return
+        a, b = self.t, self._l(o)
+        if b is None:
+            return
+
+        def computed(t):
+            t = z3.simplify(t) if not z3.is_const(t) else t
+            return not (z3.is_const(t) or z3.is_rational_value(t) or z3.is_int_value(t))
+        try:
+            if computed(a) or computed(b):
+                engine.cur().rounding_dependent(a == b)
+        except z3.Z3Exception:
+            pass
+
     def __eq__(self, o):
         if isinstance(o, float) and (math.isinf(o) or o != o):
             return False
         r = self._cmp(o, "__eq__")
+        if isinstance(r, SymBool):
+            self._note_exact_equality(o)
         return False if r is NotImplemented else r
 
     def __ne__(self, o):
         if isinstance(o, float) and (math.isinf(o) or o != o):
             return True
         r = self._cmp(o, "__ne__")
+        if isinstance(r, SymBool):
+            self._note_exact_equality(o)
         return True if r is NotImplemented else r
